@@ -25,6 +25,7 @@ fn dispatch(a: &Args) {
         "macmc" => vharness::macdrv::vh_macmc(&a),
         "nbwalk" => vharness::macdrv::vh_nbwalk(&a),
         "awalk" => vharness::macdrv::vh_awalk(&a),
+        "certwalk" => vharness::macdrv::vh_certwalk(&a),
         "cmds_items" => vharness::cmdrec::cmds_items(&a),
         "cmds_fields" => vharness::cmdrec::cmds_fields(&a),
         "idtext" => vharness::cmdrec::idtext(&a),
